@@ -27,6 +27,17 @@ CLAIMS = {
             "mirror, the layer order (CLI > test case > document defaults > format) at every merge call site of lib+bin, and the two format "
             "default tables.",
             "Not decided: the observable run-time effect of each key.", "§4 C16"),
+    "C04": ("Decides that RegexRule::make anchors a group around the cleaned expression, that in every Rule impl the line reaches the "
+            "whole-line comparator (byte ==, WildMatch::matches, Regex::is_match) only through the documented newline handling, the "
+            "registry/alias/kind tables against the documented BNF, that glob_to_regex_string emits raw regex syntax only for ?,* and "
+            "escaped pairs, and the escape decoder tables.",
+            "Not decided: the matching semantics of the regex and wildmatch crates, correctness of the three regex clean-up passes.", "§4 C04"),
+    "C11": ("Decides on the encoder/decoder tables extracted from the current MIR that decode(encode(b))==[b] for all bytes != LF and all "
+            "ordered byte pairs, that outputs are printable ASCII, that the identity set excludes the introducer, that no rendering that "
+            "contains escapes emits a raw backslash (ascii guard and unicode per-char closure), that ` (escaped)` is appended exactly on the "
+            "`rendering != raw` edge, and that unicode mode keeps a char only on the !is_other edge.",
+            "Not decided: that unicode_categories::is_other is the right notion of printable; multi-character interplay beyond adjacent pairs is "
+            "argued from the pair-wise left-to-right structure of both decoders, not enumerated.", "§4 C11"),
 }
 
 PENDING = "static rules for this property are designed (DESIGN.md §4) but not yet implemented in this revision"
